@@ -4,7 +4,8 @@ CONFIG = {
     'props_file': 'Props/C01.v',
     'rule': 'case mem: op sequences of length 3-30 from a structured generator over a tracked abstract tree (names a,b,c, depth<=3, '
             '<=~8 live handles, alternative spellings with //, /./, dir/../dir, trailing /): well-formed stream (POSIX preconditions '
-            'of C01 hold by construction; compared with OsFs in a fresh temp dir step by step and by a final Stat/ReadDir/ReadFile sweep) '
+            'of C01 hold by construction, plus ~6% creating calls below a regular file — Create/Mkdir/MkdirAll/OpenFile(O_CREATE)/Rename whose nearest '
+            'existing ancestor is a regular file: ENOTDIR on both sides, nothing changes; compared with OsFs in a fresh temp dir step by step and by a final Stat/ReadDir/ReadFile sweep) '
             'and a malformed stream (15% ops outside the preconditions; model-vs-implementation only). snap/index items dump the whole '
             'path map and child index of the MemMapFs (overlay export) for comparison with the model. distinct = hash of the item list; '
             'non-trivial = at least one successful mutation and one successful observation after it',
